@@ -2,7 +2,9 @@
   Scc.RV.RefBridge — Theorem B (RV64): from executions of emitted code (`exec`, `execFwd`) to the run loop
   of the machine on a LOADED program (`Loaded p ks`, RefLayout.lean) whose hook monitor is switched off
   (`cfg.heap = false`: a kept hook comment is an item that does nothing).
-  * `Reach p cfg s s'`: the run loop gets from `s` to `s'` (it consumes some fuel);
+  * `Reach p cfg s s'`: the run loop gets from `s` to `s'` (it consumes some fuel) — stated with the
+    transition function `step` of the loop (Scc/RV/ConcStep.lean): the machine PASSES THROUGH `s'`
+    (`stepN p cfg k s = .inl s'`); `Reach.loop`: the loop started in `s` continues as from `s'`;
   * `KAt ks pc items`: the emitted code `items` lies in the kept codes from item index `pc` on, up to the
     comments that the layout dropped (`Keeps`);
   * `exec_block`: a block with forward local labels that `execFwd` runs to its end (the code of the memory
@@ -11,6 +13,7 @@
 -/
 import Scc.RV.RefLayout
 import Scc.RV.MemProofsFree
+import Scc.RV.ConcStep
 
 set_option linter.unusedVariables false
 set_option linter.unusedSimpArgs false
@@ -21,18 +24,27 @@ open Scc.RV
 
 /-! ## reachability in the run loop -/
 
-/-- the run loop gets from `s` to `s'` -/
+/-- the run loop gets from `s` to `s'`: after some units of fuel (items traversed) the machine is in state `s'` -/
 def Reach (p : Program) (cfg : MonCfg) (s s' : State) : Prop :=
-  ∃ k, ∀ fuel, runLoop p cfg (fuel + k) s = runLoop p cfg fuel s'
+  ∃ k, stepN p cfg k s = .inl s'
 
-theorem Reach.refl (p : Program) (cfg : MonCfg) (s : State) : Reach p cfg s s := ⟨0, fun _ => rfl⟩
+theorem Reach.refl (p : Program) (cfg : MonCfg) (s : State) : Reach p cfg s s := ⟨0, rfl⟩
 
 theorem Reach.trans {p : Program} {cfg : MonCfg} {s1 s2 s3 : State} (h1 : Reach p cfg s1 s2)
     (h2 : Reach p cfg s2 s3) : Reach p cfg s1 s3 := by
   obtain ⟨k1, h1⟩ := h1
   obtain ⟨k2, h2⟩ := h2
-  refine ⟨k2 + k1, fun fuel => ?_⟩
-  rw [← Nat.add_assoc, h1, h2]
+  exact ⟨k1 + k2, stepN_trans p cfg h1 h2⟩
+
+/-- the run loop started in `s` continues as from `s'` -/
+theorem Reach.loop {p : Program} {cfg : MonCfg} {s s' : State} (h : Reach p cfg s s') :
+    ∃ k, ∀ fuel, runLoop p cfg (fuel + k) s = runLoop p cfg fuel s' := by
+  obtain ⟨k, hk⟩ := h
+  exact ⟨k, fun fuel => runLoop_stepN p cfg k fuel hk⟩
+
+/-- one step -/
+theorem Reach.of_step {p : Program} {cfg : MonCfg} {s s' : State} (h : step p cfg s = .inl s') :
+    Reach p cfg s s' := ⟨1, by rw [stepN_one]; exact h⟩
 
 theorem Reach.of_eq {p : Program} {cfg : MonCfg} {s s' : State} (h : s = s') : Reach p cfg s s' := by
   subst h; exact Reach.refl p cfg s
@@ -83,7 +95,7 @@ theorem run_fwdK (p : Program) (cfg : MonCfg) (hheap : cfg.heap = false) (pc0 : 
     (hb : BlockAt p pc0 cs) (hr : RunnableK cs) :
     ∀ (n off : Nat) (s s' : State), cs.length - off ≤ n → off ≤ cs.length → s.pc = pc0 + off →
       execFwd cfg p.labelAddr (cs.drop off) s = .ok (s', .fall) →
-      ∃ k steps', ∀ fuel, runLoop p cfg (fuel + k) s = runLoop p cfg fuel (setPS s' (pc0 + cs.length) steps') := by
+      ∃ k steps', stepN p cfg k s = .inl (setPS s' (pc0 + cs.length) steps') := by
   intro n
   induction n with
   | zero =>
@@ -93,7 +105,7 @@ theorem run_fwdK (p : Program) (cfg : MonCfg) (hheap : cfg.heap = false) (pc0 : 
     rw [List.drop_length, execFwd_nil] at hx
     simp only [Except.ok.injEq, Prod.mk.injEq, and_true] at hx
     subst hx
-    exact ⟨0, s.steps, fun fuel => by simp only [Nat.add_zero, setPS, ← hpc]⟩
+    exact ⟨0, s.steps, by simp only [stepN, setPS, ← hpc]⟩
   | succ n ih =>
     intro off s s' hn hoff hpc hx
     by_cases hlt : off < cs.length
@@ -122,9 +134,9 @@ theorem run_fwdK (p : Program) (cfg : MonCfg) (hheap : cfg.heap = false) (pc0 : 
           have hx' := execFwd_setPS cfg p.labelAddr (s.pc + 1) s.steps _ (cs.drop (off + 1)) s (Nat.le_refl _)
           rw [hx] at hx'
           obtain ⟨k, st, hk⟩ := ih (off + 1) _ _ (by omega) (by omega) (by simp only [setPS]; omega) hx'
-          refine ⟨k + 1, st, fun fuel => ?_⟩
-          rw [← Nat.add_assoc, runLoop_label p cfg (fuel + k) s hit (by rw [hcode, hl]) hne]
-          exact hk fuel
+          refine ⟨k + 1, st, ?_⟩
+          rw [stepN_succ_of_step (Scc.RV.step_of_label p cfg s hit (by rw [hcode, hl]) hne)]
+          exact hk
         · by_cases hcom : ∃ m, cs[off] = .COMMENT m
           · -- a kept comment: passed
             obtain ⟨m, hm⟩ := hcom
@@ -135,9 +147,9 @@ theorem run_fwdK (p : Program) (cfg : MonCfg) (hheap : cfg.heap = false) (pc0 : 
             have hx' := execFwd_setPS cfg p.labelAddr (s.pc + 1) s.steps _ (cs.drop (off + 1)) s (Nat.le_refl _)
             rw [hx] at hx'
             obtain ⟨k, st, hk⟩ := ih (off + 1) _ _ (by omega) (by omega) (by simp only [setPS]; omega) hx'
-            refine ⟨k + 1, st, fun fuel => ?_⟩
-            rw [← Nat.add_assoc, runLoop_comment p cfg hheap (fuel + k) s hit (by rw [hcode, hm])]
-            exact hk fuel
+            refine ⟨k + 1, st, ?_⟩
+            rw [stepN_succ_of_step (Scc.RV.step_of_comment p cfg hheap s hit (by rw [hcode, hm]))]
+            exact hk
           · -- an instruction
             have hins : it.code.isInstr = true := by
               rw [hcode]
@@ -151,9 +163,9 @@ theorem run_fwdK (p : Program) (cfg : MonCfg) (hheap : cfg.heap = false) (pc0 : 
                 (Nat.le_refl _)
               rw [hx] at hx'
               obtain ⟨k, st, hk⟩ := ih (off + 1) _ _ (by omega) (by omega) (by simp only [setPS]; omega) hx'
-              refine ⟨k + 1, st, fun fuel => ?_⟩
-              rw [← Nat.add_assoc, runLoop_fall p cfg (fuel + k) s s1 hit hins hex']
-              exact hk fuel
+              refine ⟨k + 1, st, ?_⟩
+              rw [stepN_succ_of_step (Scc.RV.step_of_fall p cfg s s1 hit hins hex')]
+              exact hk
             | label l =>
               simp only [contFwd] at hx
               cases hsk : skipTo l (cs.drop (off + 1)) with
@@ -176,16 +188,16 @@ theorem run_fwdK (p : Program) (cfg : MonCfg) (hheap : cfg.heap = false) (pc0 : 
                   (cs.drop (off + 1 + j)) s1 (Nat.le_refl _)
                 rw [hx2] at hx'
                 obtain ⟨k, st, hk⟩ := ih (off + 1 + j) _ _ (by omega) (by omega) (by simp only [setPS]) hx'
-                refine ⟨k + 1, st, fun fuel => ?_⟩
-                rw [← Nat.add_assoc, runLoop_jump p cfg (fuel + k) s s1 hit hins hex' hl]
-                exact hk fuel
+                refine ⟨k + 1, st, ?_⟩
+                rw [stepN_succ_of_step (Scc.RV.step_of_jump p cfg s s1 hit hins hex' hl)]
+                exact hk
             | addr a => simp [contFwd] at hx
     · have : off = cs.length := by omega
       subst this
       rw [List.drop_length, execFwd_nil] at hx
       simp only [Except.ok.injEq, Prod.mk.injEq, and_true] at hx
       subst hx
-      exact ⟨0, s.steps, fun fuel => by simp only [Nat.add_zero, setPS, ← hpc]⟩
+      exact ⟨0, s.steps, by simp only [stepN, setPS, ← hpc]⟩
 
 /-! ## code at an index of the kept codes -/
 
@@ -298,8 +310,8 @@ theorem step_fall {c : Code} {more : List Code} {s s1 : State} (hat : KAt ks s.p
   have hc : c.isComment = false := by cases c <;> first | rfl | (simp [Code.isInstr] at hi)
   obtain ⟨hg, hm⟩ := hat.head hc
   obtain ⟨it, h1, h2, _⟩ := loaded_item L hg
-  refine ⟨⟨1, fun fuel => ?_⟩, hm⟩
-  exact runLoop_fall p cfg fuel s s1 h1 (by rw [h2]; exact hi) (by rw [h2]; exact hx _)
+  refine ⟨Reach.of_step ?_, hm⟩
+  exact Scc.RV.step_of_fall p cfg s s1 h1 (by rw [h2]; exact hi) (by rw [h2]; exact hx _)
 
 include L in
 /-- an instruction at the program counter that jumps to a label -/
@@ -310,8 +322,8 @@ theorem step_label {c : Code} {more : List Code} {s s1 : State} {l : String} {i 
   have hc : c.isComment = false := by cases c <;> first | rfl | (simp [Code.isInstr] at hi)
   obtain ⟨hg, _⟩ := hat.head hc
   obtain ⟨it, h1, h2, _⟩ := loaded_item L hg
-  refine ⟨1, fun fuel => ?_⟩
-  exact runLoop_jump p cfg fuel s s1 h1 (by rw [h2]; exact hi) (by rw [h2]; exact hx _)
+  refine Reach.of_step ?_
+  exact Scc.RV.step_of_jump p cfg s s1 h1 (by rw [h2]; exact hi) (by rw [h2]; exact hx _)
     (by rw [L.labels]; exact hl)
 
 include L in
@@ -324,8 +336,8 @@ theorem step_addr {c : Code} {more : List Code} {s s1 : State} {a : Word} {j : N
   have hc : c.isComment = false := by cases c <;> first | rfl | (simp [Code.isInstr] at hi)
   obtain ⟨hg, _⟩ := hat.head hc
   obtain ⟨it, h1, h2, _⟩ := loaded_item L hg
-  refine ⟨1, fun fuel => ?_⟩
-  exact runLoop_addr p cfg fuel s s1 h1 (by rw [h2]; exact hi) (by rw [h2]; exact hx _)
+  refine Reach.of_step ?_
+  exact Scc.RV.step_of_addr p cfg s s1 h1 (by rw [h2]; exact hi) (by rw [h2]; exact hx _)
     (by rw [ha]; exact L.addrs j hj hji)
 
 include L in
@@ -334,8 +346,8 @@ theorem pass_label {l : String} {more : List Code} {s : State} (hat : KAt ks s.p
     (hl : l ≠ "cleanup") : Reach p cfg s (setPS s (s.pc + 1) s.steps) ∧ KAt ks (s.pc + 1) more := by
   obtain ⟨hg, hm⟩ := hat.head rfl
   obtain ⟨it, h1, h2, _⟩ := loaded_item L hg
-  refine ⟨⟨1, fun fuel => ?_⟩, hm⟩
-  exact runLoop_label p cfg fuel s h1 h2 hl
+  refine ⟨Reach.of_step ?_, hm⟩
+  exact Scc.RV.step_of_label p cfg s h1 h2 hl
 
 include L hheap in
 /-- items that are no instructions (labels other than `cleanup`, hooks) are passed -/
@@ -351,15 +363,15 @@ theorem pass_items (s : State) : ∀ (n i : Nat), s.pc = i → i + n ≤ ks.leng
     obtain ⟨it, h1, h2, _⟩ := loaded_item L hg
     have h1' : p.items[s.pc]? = some it := by rw [hpc]; exact h1
     have hstep : Reach p cfg s (setPS s (i + 1) s.steps) := by
-      refine ⟨1, fun fuel => ?_⟩
+      refine Reach.of_step ?_
       cases hc : ks[i] with
       | LAB l =>
         rw [hc] at h2 hnc
-        rw [runLoop_label p cfg fuel s h1' h2 (fun e => hnc (by rw [e])), hpc]
+        rw [Scc.RV.step_of_label p cfg s h1' h2 (fun e => hnc (by rw [e])), hpc]
         rfl
       | COMMENT m =>
         rw [hc] at h2
-        rw [runLoop_comment p cfg hheap fuel s h1' h2, hpc]
+        rw [Scc.RV.step_of_comment p cfg hheap s h1' h2, hpc]
       | _ => rw [hc] at hni; simp [Code.isInstr] at hni
     have := pass_items (setPS s (i + 1) s.steps) n (i + 1) rfl (by omega)
       (fun m h1 h2 c hc => hall m (by omega) (by omega) c hc)
@@ -379,7 +391,7 @@ end Bridge
 /-- reaching a state from which the run ends -/
 theorem Reach.done {p : Program} {cfg : MonCfg} {s s' : State} {v : Word} (h : Reach p cfg s s')
     (hd : ∀ fuel, (runLoop p cfg (fuel + 1) s').res = .done v) : ∃ fuel, (runLoop p cfg fuel s).res = .done v := by
-  obtain ⟨k, hk⟩ := h
+  obtain ⟨k, hk⟩ := h.loop
   exact ⟨1 + k, by rw [hk]; exact hd 0⟩
 
 end Scc.RV.Ref
